@@ -128,7 +128,7 @@ def run_case(args):
             ev = [["setup-exc", type(e).__name__, str(e)[:100]]]
         traces.append({"impl": be, "events": ev})
     return {"method": stepper.tlc_method(m, pn), "input": inp, "bound": bound, "cap": CAP,
-            "fault": [0, 0], "traces": traces, "src": method}
+            "fault": [0, 0], "mode": "events", "traces": traces, "src": method}
 
 
 def classify(case, impl, pos, exp, got):
@@ -163,7 +163,7 @@ def judge(chk, cases):
 
 
 def cases_for_tlc(cases):
-    return [{k: c[k] for k in ("method", "input", "bound", "cap", "fault", "traces")} for c in cases]
+    return [{k: c[k] for k in ("method", "input", "bound", "cap", "fault", "mode", "traces")} for c in cases]
 
 
 def run(chk):
